@@ -104,8 +104,15 @@ def setFragment (u : Url) (f : Cs) : Option Url :=
     let esc := escape frag .fragment
     some { u with fragment := frag, rawFragment := if esc == String.ofList f then "" else String.ofList f }
 
-def escapedPath (u : Url) : String := if u.rawPath != "" then u.rawPath else escape u.path .path
-def escapedFragment (u : Url) : String := if u.rawFragment != "" then u.rawFragment else escape u.fragment .fragment
+/-- net/url validEncoded -/
+def validEncoded (s : String) (m : Mode) : Bool :=
+  s.toList.all fun c =>
+    "!$&'()*+,;=:@[]%".toList.contains c || (c.toNat < 128 && !shouldEscape c m)
+
+def escapedPath (u : Url) : String :=
+  if u.rawPath != "" && validEncoded u.rawPath .path then u.rawPath else escape u.path .path
+def escapedFragment (u : Url) : String :=
+  if u.rawFragment != "" && validEncoded u.rawFragment .fragment then u.rawFragment else escape u.fragment .fragment
 
 /-- getScheme -/
 def getSchemeAux : Nat → Cs → Cs → Res (Cs × Cs)
